@@ -105,7 +105,18 @@ def one(sid, rnd, nx, target, point, ex):
             s.wait(it)
     # ---- recovery: served by new processes
     if not (target == "ext" and point == "launchfail"):
-        s.recover(subs)
+        tags = s.recover(subs)
+        if rnd.random() < 0.6:
+            # a second fault in the recovered environment, and a second recovery
+            it = s.invoke(size=5, seed=7)
+            s.wait(tags["rt"])
+            for w in tags:
+                if w != "rt" and "INVOKE" in subs[w[4:]]:
+                    s.wait(tags[w])
+            second = rnd.choice(["rt"] + ["ext:" + e for e in exts])
+            kill(s, second, rnd.choice(EXITS))
+            s.wait(it)
+            s.recover(subs)
     return s.done()
 
 
